@@ -64,3 +64,74 @@ Print Assumptions C14_keys_layout.
 Theorem C14_limit : forall l t items, 64 < Z.of_nat (length items) -> config_set l t items = Raise EUBXMessage.
 Proof. exact c14_limit. Qed.
 Print Assumptions C14_limit.
+
+(* ---- parse side: ANY list of items (unbounded), known or unknown key ids ---- *)
+From PyUbx Require Cfgval_lemmas C14_parse.
+
+(* the key/value walk itself: from a payload `pre ++ items`, one attribute per item in order, named by
+   cfgkey2name of the 32-bit little-endian key id and equal to the decoding of its value bytes at the width of the
+   key's type; the premise off0 <= 4 is needed because the loop compares an absolute offset with a relative length *)
+Theorem C14_items_walk : forall items fuel pre s off0,
+  Forall (Cfgval_lemmas.item_ok readonly_names cfgdb storsize) items ->
+  w_pay s = (pre ++ concat (map Cfgval_lemmas.item_bytes items))%list ->
+  (off0 <= 4)%nat -> (length items < fuel)%nat ->
+  exists s', cfgval_loop readonly_names cfgdb storsize fuel (length pre) (length (w_pay s) - off0) s = Ok s' /\
+             w_attrs s' = fold_left Cfgval_lemmas.set_item items (w_attrs s) /\ w_pay s' = w_pay s /\ w_off s' = w_off s.
+Proof. exact (Cfgval_lemmas.cfgval_items readonly_names cfgdb storsize). Qed.
+Print Assumptions C14_items_walk.
+
+(* a CFG-VALGET response *)
+Theorem C14_valget_parse : forall ver lay p0 p1 items bf,
+  (ver < 256)%N -> (lay < 256)%N -> (p0 < 256)%N -> (p1 < 256)%N ->
+  Forall (Cfgval_lemmas.item_ok readonly_names cfgdb storsize) items ->
+  let p := (ver :: lay :: p0 :: p1 :: concat (map Cfgval_lemmas.item_bytes items))%list in
+  Z.of_nat (length p) < 65536 ->
+  exists m, construct [6%N] [139%N] 0%N bf (KwPayload p) = Ok m /\ m_payload m = Some p /\
+            m_attrs m = fold_left Cfgval_lemmas.set_item items
+                          [("version", PInt (Z.of_N ver)); ("layer", PInt (Z.of_N lay));
+                           ("position", PInt (Z.of_N (p0 + 256 * p1)))]%string.
+Proof. exact C14_parse.valget_parse. Qed.
+Print Assumptions C14_valget_parse.
+
+(* a CFG-VALSET (flags view) *)
+Theorem C14_valset_parse : forall ver lay tr r0 items,
+  (ver < 256)%N -> (lay < 256)%N -> (tr < 256)%N -> (r0 < 256)%N ->
+  Forall (Cfgval_lemmas.item_ok readonly_names cfgdb storsize) items ->
+  let p := (ver :: lay :: tr :: r0 :: concat (map Cfgval_lemmas.item_bytes items))%list in
+  Z.of_nat (length p) < 65536 ->
+  exists m, construct [6%N] [138%N] 1%N true (KwPayload p) = Ok m /\ m_payload m = Some p /\
+            m_attrs m = fold_left Cfgval_lemmas.set_item items
+                          [("version", PInt (Z.of_N ver));
+                           ("ram", PInt (Bits_lemmas.ext (Z.of_N lay) 0 1)); ("bbr", PInt (Bits_lemmas.ext (Z.of_N lay) 1 1));
+                           ("flash", PInt (Bits_lemmas.ext (Z.of_N lay) 2 1));
+                           ("action", PInt (Bits_lemmas.ext (Z.of_N tr) 0 2));
+                           ("reserved0", PInt (Z.of_N r0))]%string.
+Proof. exact C14_parse.valset_parse. Qed.
+Print Assumptions C14_valset_parse.
+
+(* config_set: the message it returns exposes exactly the keys and values given, in order *)
+Theorem C14_config_set_parse : forall layers transaction items cits m,
+  config_set layers transaction items = Ok m ->
+  Forall2 (fun kv it => C14_parse.to_citem kv = Ok it) items cits ->
+  Forall (Cfgval_lemmas.item_ok readonly_names cfgdb storsize) cits ->
+  m_attrs m = fold_left Cfgval_lemmas.set_item cits
+                [("version", PInt (if (transaction =? 0)%Z then 0 else 1));
+                 ("ram", PInt (Bits_lemmas.ext layers 0 1)); ("bbr", PInt (Bits_lemmas.ext layers 1 1));
+                 ("flash", PInt (Bits_lemmas.ext layers 2 1));
+                 ("action", PInt (Bits_lemmas.ext transaction 0 2));
+                 ("reserved0", PInt 0)]%string.
+Proof. exact C14_parse.config_set_parse. Qed.
+Print Assumptions C14_config_set_parse.
+
+(* non-vacuity: a known key by name and an unknown key id both satisfy item_ok *)
+Example C14_item_ok_examples :
+  exists a b, C14_parse.to_citem (KName "CFG_UART1_BAUDRATE", PInt 9600) = Ok a /\
+              C14_parse.to_citem (KId 270471167, PBytes [7%N]) = Ok b /\
+              Cfgval_lemmas.ci_name b = "CFG_0x101f0fff"%string /\
+              Cfgval_lemmas.ci_val a = PInt 9600 /\
+              Forall (Cfgval_lemmas.item_ok readonly_names cfgdb storsize) [a; b].
+Proof.
+  eexists. eexists. split; [vm_compute; reflexivity|]. split; [vm_compute; reflexivity|].
+  split; [reflexivity|]. split; [reflexivity|].
+  repeat constructor; try (vm_compute; reflexivity); try (eexists; split; [vm_compute; reflexivity|split; [reflexivity|vm_compute; repeat constructor]]).
+Qed.
